@@ -38,7 +38,8 @@ logging.getLogger('pyg').setLevel(logging.ERROR)
 NAN = 'fresh-nan'          # placeholder: a fresh float('nan') object per occurrence
 SNAN = 'shared-nan'        # the one np.nan object
 INF = float('inf')
-KEYS = [None, 0, 1, 2, 3, 1.0, 2.0, 2.5, -0.25, 'a', 'b', '', D(2020, 1, 1), D(2020, 1, 2, 12), NAN, NAN, SNAN, INF, -INF]
+KEYS = [None, 0, 1, 2, 3, 1.0, 2.0, 2.5, -0.25, 'a', 'b', '', D(2020, 1, 1), D(2020, 1, 2, 12), NAN, NAN, SNAN, INF, -INF,
+        2 ** 53, 2 ** 53 + 1, float(2 ** 53)]     # neighbouring ints beyond float precision are distinct keys
 VALS = [None, 1, 2, 'p', 'q', 0.5]
 
 
